@@ -289,7 +289,12 @@ func (e *CEnv) evalOld(x *CExpr) CVal {
 	n := *e
 	n.st = e.old
 	n.inOld = true
-	return n.Eval(x)
+	v := n.Eval(x)
+	if v.ObjVal {
+		// a struct/array VALUE of the old state: snapshot it now (a pointer would be read in a later state)
+		v = n.loadObjVal(v)
+	}
+	return v
 }
 
 func (e *CEnv) ident(name string) CVal {
@@ -1004,6 +1009,15 @@ func (e *CEnv) call(x *CExpr) CVal {
 		var sig *types.Signature
 		if fn != nil {
 			sig = fn.Signature
+		} else if i := strings.IndexByte(key, '.'); i > 0 {
+			// package-level function variable
+			if pkg := e.fx.eng.pkgByName(key[:i]); pkg != nil {
+				if o := pkg.Scope().Lookup(key[i+1:]); o != nil {
+					if sg, ok := o.Type().Underlying().(*types.Signature); ok {
+						sig = sg
+					}
+				}
+			}
 		}
 		slot, typ := "", types.Type(nil)
 		if x.Name == "resultof" {
@@ -1110,6 +1124,18 @@ func (e *CEnv) call(x *CExpr) CVal {
 			return CVal{V: a, G: &CType{Kind: "name", Name: "bytearr"}}
 		}
 		return CVal{V: o, T: intT, Signed: true}
+	case "same":
+		// representation equality: every leaf equal (slices by header, arrays by content)
+		a, b := e.Eval(x.Args[0]), e.Eval(x.Args[1])
+		if a.ObjVal || b.ObjVal {
+			a, b = e.loadObjVal(a), e.loadObjVal(b)
+		}
+		a, b = e.unify(a, b)
+		t := a.T
+		if t == nil {
+			t = b.T
+		}
+		return CVal{V: e.fx.reprEq(t, a.V, b.V), T: types.Typ[types.Bool]}
 	case "isnil":
 		v := e.Eval(x.Args[0])
 		return CVal{V: e.fx.isNil(v.V), T: types.Typ[types.Bool]}
